@@ -223,6 +223,7 @@ def _use(sc):
     """Every structural query once (a statechart that has been used before it is edited)."""
     for nm in list(sc.states):
         sc.depth_for(nm), sc.ancestors_for(nm), sc.descendants_for(nm), sc.children_for(nm), sc.parent_for(nm)
+        sc.transitions_from(nm), sc.transitions_to(nm), sc.transitions_with(nm)
     sc.leaf_for(list(sc.states)), sc.events_for()
 
 
@@ -264,8 +265,18 @@ def build_api_edit(c, names, rng):
             st.memory = names[c['memory'][s - 1]]
     tids = list(range(1, len(c['trans']) + 1))
     rng.shuffle(tids)
+    owners = [names[s] for s in range(1, n + 1) if c['kind'][s - 1] in gc.TRANS_KINDS]
     for tid in tids:
-        sc.add_transition(make_transition(c, tid, names))
+        tr = make_transition(c, tid, names)
+        if rng.random() < 0.3 and len(owners) > 1:
+            # registered on another state first, then moved to its place with rotate_transition
+            right = tr.source
+            tr._source = rng.choice([o for o in owners if o != right])
+            sc.add_transition(tr)
+            _use(sc)
+            sc.rotate_transition(tr, new_source=right)
+        else:
+            sc.add_transition(tr)
     sc.validate()
     return sc
 
